@@ -133,7 +133,12 @@ def create_random_binary_mask(features):
 
 def searchsorted(bin_locations, inputs, eps=1e-6):
     bin_locations = bin_locations.clone()
-    bin_locations[..., -1] += eps
+    last = bin_locations[..., -1]
+    # Close the last bin on the right; if eps is absorbed by rounding (large
+    # magnitudes or low precision) move to the next representable value instead.
+    bin_locations[..., -1] = torch.max(
+        last + eps, torch.nextafter(last, torch.full_like(last, float("inf")))
+    )
     return torch.sum(inputs[..., None] >= bin_locations, dim=-1) - 1
 
 
